@@ -27,7 +27,7 @@ def run(s):
     def on_pair_state(ro, cur, ev):
         acc.sweep(s, ro, cur, {'workload': 'pair-history'}, after=(ev or {}).get('msg_cls'))
     K.pair_histories(s, timing='any', text='hostile', on_state=on_pair_state)
-    n = 150 if q else 5000
+    n = 150 if q else 12000
     w = K.kind_weights(1.0, 0.5, 0.4, 0.02)
     for h in range(n):
         if not s.mine(h):
